@@ -73,6 +73,12 @@ CHECKS = {
         design="6/C20"),
 }
 
+FAULTS = " About a tenth of the operations additionally run with one failing store call (generic fault mode): the call must report an error and leave no trace."
+CONC = " A concurrent part (C07 engine: schedule perturbed at every store call, recorded history incl. a sequential epilogue checked for linearizability, or an at-most-one-winner race) covers the schedules under which check-then-act slips and lost updates show."
+for k in ("C01", "C05", "C06", "C08", "C09", "C12", "C13", "C14", "C19", "C20"):
+    CHECKS[k]["text"] += FAULTS
+for k in ("C02", "C03", "C06", "C09", "C10", "C11", "C12", "C13", "C14", "C19", "C20"):
+    CHECKS[k]["text"] += CONC
 BUILT = ["C%02d" % i for i in range(1, 21)]
 CHECKS = {k: v for k, v in CHECKS.items() if k in BUILT}
 
